@@ -2,11 +2,12 @@ from check import run_diff_property
 import lib
 
 CFG = dict(
-    streams=[('h2marshal', 3000, 60000), ('h2fp', 400, 6000, 'http2test'), ('e2e', 150, 2500), ('rw', 800, 12000)],
-    oracle_ops={'h2fp', 'e2e', 'rwspec05'},
-    twophase_ops={'e2e'},
-    ops_filter={'h2marshal', 'h2fp', 'e2e', 'rwspec05'},
-    project={'e2e': lib.proj_e2e({'h2', 'st'})},
+    streams=[('h2marshal', 3000, 60000), ('h2fp', 400, 6000, 'http2test'), ('e2e', 150, 2500), ('rw', 800, 12000), ('e2emulti', 8, 150)],
+    race_streams={'e2emulti'},
+    oracle_ops={'h2fp', 'e2e', 'rwspec05', 'e2emulti'},
+    twophase_ops={'e2e', 'e2emulti'},
+    ops_filter={'h2marshal', 'h2fp', 'e2e', 'rwspec05', 'e2emulti'},
+    project={'e2e': lib.proj_e2e({'h2', 'st'}), 'e2emulti': lib.multi(f1=lib.proj_e2e({'h2', 'st'}))},
     http2_ops={'h2fp', 'h2fpm'},
     rule=("DELIVERY: the handler in-process with scripted injector sets (default three + custom, shuffled order, value / empty / "
           "error outcomes): what the backend receives under each injected name against Fp.Spec.Proxy.specValues. "
